@@ -307,6 +307,16 @@ func c20r2(c *RC) {
 			return true
 		})
 		c.Check(ok, mg.QName()+"|folds-every-metric-of-source-into-receiver", pr.Pos(mg.Body.Pos()), "Scope.Merge no longer merges, for every registered metric, the source scope's instance into the receiver's own instance")
+		// ... and never adopts an instance of the source: the receiver's
+		// instances are created by instance() only, so that merging leaves the
+		// source unchanged and later merges do not add to it
+		adopts := false
+		for _, k := range callsIn(mg.Body) {
+			if mg.Pkg.CalleeName(k) == "metrics.(*Scope).store" {
+				adopts = true
+			}
+		}
+		c.Check(!adopts, mg.QName()+"|never-adopts-a-source-instance", pr.Pos(mg.Body.Pos()), "Scope.Merge stores an instance into the receiver instead of adding to the receiver's own: the receiver then shares the source's counter, every later merge also adds to that source, and a scope merged into two results is counted with whatever was merged after it")
 	}
 	if rs := c.MustFn("metrics.(*Scope).Reset"); rs != nil {
 		clr, cp := false, false
@@ -456,6 +466,50 @@ func c20r3(c *RC) {
 			}
 		}
 		c.Check(dl, fq+"|reply-carries-task-scope", pr.Pos(fn.Body.Pos()), "the worker no longer copies the task's metric scope into the reply in a defer: increments made on the worker never reach the driver")
+		// ... and it is installed before any return that can follow the task
+		// having been found (the driver adopts the reply's scope after every
+		// successful call, also one that found the task already run)
+		var dst *ast.DeferStmt
+		for _, st := range fn.Body.List {
+			if d, ok := st.(*ast.DeferStmt); ok {
+				if lit, ok := d.Call.Fun.(*ast.FuncLit); ok {
+					for _, k := range callsIn(lit.Body) {
+						if fn.Pkg.CalleeName(k) == "metrics.(*Scope).Reset" && canon(fn, k.Fun) == "$p2.Scope.Reset" {
+							dst = d
+						}
+					}
+				}
+			}
+		}
+		if dst != nil {
+			taskKey := ""
+			ast.Inspect(fn.Body, func(n ast.Node) bool {
+				if id, ok := n.(*ast.Ident); ok && id.Name == taskV && taskKey == "" {
+					taskKey = fl.Key(id)
+				}
+				return true
+			})
+			early := ""
+			var trail []string
+			fl.Walk(fl.Entry(), "", nil, Visitor{
+				Node: func(n ast.Node, x string, s *Step) (string, bool) {
+					if n == ast.Node(dst) {
+						return x, true
+					}
+					return x, false
+				},
+				Exit: func(kind ExitKind, ret *ast.ReturnStmt, x string, s *Step) {
+					if kind == ExitPanic || taskKey == "" {
+						return
+					}
+					if s.Facts.NonNil(taskKey) {
+						early = fl.exitPos(s, ret)
+						trail = s.Trail()
+					}
+				}})
+			c.Check(early == "", fq+"|reply-scope-installed-before-any-return-with-a-task", pr.Pos(dst.Pos()),
+				"the worker can return (at "+early+") with the task known but before the deferred copy of the task's scope into the reply is installed: the call succeeds with an empty scope, and the driver, which adopts the reply's scope after every successful call, wipes the task's counters", trail...)
+		}
 	}
 	// driver: adopt reply scope only on success, before OK
 	if fn := c.MustFn("exec.(*bigmachineExecutor).Run"); fn != nil {
